@@ -80,7 +80,7 @@ Lemma T_C13_truncated_outside_proof : forall K tgt pol mark e b done c L sk fuel
   K mod 4 = 0 -> 32 <= K -> Forall scalar (done ++ [c]) ->
   unit_size (utf_width e) * length (encs (utf_width e) done) < L <
     unit_size (utf_width e) * length (encs (utf_width e) (done ++ [c])) ->
-  width_eqb (utf_width e) tgt = false ->
+  ~ (utf_width e = W8 /\ tgt = W8) ->
   (b = true \/ starts_ascii done) -> trunc_defect e b done c = false ->
   S (length ((if b then bom e else []) ++ firstn L (text_bytes e (done ++ [c])))) < fuel ->
   exists k, esr_run K tgt pol mark fuel
@@ -133,3 +133,16 @@ Lemma T_C13_lossless_example_proof :
     (stream_of (with_bom true Utf8 (repeat 0x61%N 28 ++ [0x20AC; 0x1F600; 0xE9]%N)) true) =
   RunDone [ChSuccess; ChSuccess; ChEndFile] (repeat 0x61%N 28 ++ [0x20AC; 0xD83D; 0xDE00; 0xE9]%N) Utf8.
 Proof. vm_compute. reflexivity. Qed.
+
+(* same widths: UTF-16 into char16_t cut inside a code unit (1 byte of U+20AC), between the halves of a pair
+   (2 bytes of U+1F600) and inside the second half (3 bytes); UTF-32 into char32_t cut inside the code unit *)
+Lemma T_C13_truncated_example_samewidth16_proof :
+  esr_run 32 W16 Skip [0xFFFD]%N 100 (stream_of (firstn 5 (with_bom true Utf16le [0x61; 0x20AC]%N)) true)
+    = RunDone [ChSuccess; ChEndFile] [0x61; 0xFFFD]%N Utf16le /\
+  esr_run 32 W16 Skip [0xFFFD]%N 100 (stream_of (firstn 6 (with_bom true Utf16be [0x61; 0x1F600]%N)) true)
+    = RunDone [ChSuccess; ChEndFile] [0x61; 0xFFFD]%N Utf16be /\
+  esr_run 32 W16 ThrowError [0xFFFD]%N 100 (stream_of (firstn 7 (with_bom true Utf16le [0x61; 0x1F600]%N)) true)
+    = RunDone [ChDecodeError] [0x61]%N Utf16le /\
+  esr_run 32 W32 Skip [0xFFFD]%N 100 (stream_of (firstn 11 (with_bom true Utf32be [0x61; 0x1F600]%N)) true)
+    = RunDone [ChSuccess; ChEndFile] [0x61; 0xFFFD]%N Utf32be.
+Proof. repeat split; vm_compute; reflexivity. Qed.
